@@ -65,11 +65,37 @@ type nodeTx struct {
 func check(ctx *pbt.Ctx, c Case) error {
 	script := []byte(c.Script)
 	ctx.Key(script, []byte{byte(c.In)})
+	s := bscript.NewFromBytes(append([]byte(nil), script...))
+	a, err := inspect(ctx, s, script, c.How)
+	if err != nil {
+		return err
+	}
+	tx, err := buildTx(c.In, bscript.NewFromBytes(append([]byte(nil), script...)), bscript.NewFromBytes(append([]byte(nil), script...)))
+	if err != nil {
+		return err
+	}
+	return checkNodeJSON(ctx, tx, script, c.In, a)
+}
+
+// answers is what the direct queries said (the node JSON must say the same).
+type answers struct {
+	typ    string
+	asm    string
+	asmErr error
+	pkh    []byte
+	addrs  []string
+	insc   *bscript.InscriptionArgs
+}
+
+// inspect asks s (whose bytes are expected to be script) every inspection query and applies
+// the classification oracles. It is used on fresh objects (check) and on long-lived ones
+// (history_test.go).
+func inspect(ctx *pbt.Ctx, s *bscript.Script, script []byte, how string) (*answers, error) {
 	toks, decodable, _ := ref.Tokenize(script)
 	tpl := ref.StrictTemplate(script)
-
-	work := append([]byte(nil), script...)
-	s := bscript.NewFromBytes(work)
+	if !bytes.Equal(*s, script) {
+		return nil, fmt.Errorf("harness/library: the script object holds %s, expected %s", short(*s), short(script))
+	}
 
 	// ---- every inspection query (a panic is caught by the framework and is a violation)
 	typ := s.ScriptType()
@@ -84,17 +110,17 @@ func check(ctx *pbt.Ctx, c Case) error {
 	addrs, addrErr := s.Addresses()
 	asm, asmErr := s.ToASM()
 	insc, inscErr := s.ParseInscription()
-	_, _ = bscript.DecodeParts(work)
-	_ = bscript.MinPushSize(work)
+	_, _ = bscript.DecodeParts(*s)
+	_ = bscript.MinPushSize(*s)
 	hexStr := s.String()
 	if !s.EqualsBytes(script) || !s.EqualsHex(hex.EncodeToString(script)) || !s.Equals(bscript.NewFromBytes(script)) {
-		return fmt.Errorf("Equals* deny identity for %s", short(script))
+		return nil, fmt.Errorf("Equals* deny identity for %s", short(script))
 	}
-	if !bytes.Equal(work, script) {
-		return fmt.Errorf("an inspection query modified the script %s -> %s", short(script), short(work))
+	if !bytes.Equal(*s, script) {
+		return nil, fmt.Errorf("an inspection query modified the script %s -> %s", short(script), short(*s))
 	}
 	if hexStr != hex.EncodeToString(script) {
-		return fmt.Errorf("String() = %q for %s", hexStr, short(script))
+		return nil, fmt.Errorf("String() = %q for %s", hexStr, short(script))
 	}
 
 	// ---- labels
@@ -121,8 +147,8 @@ func check(ctx *pbt.Ctx, c Case) error {
 	if zero {
 		ctx.Label("has zero-length push")
 	}
-	if c.How != "enum" {
-		ctx.Label("how:" + c.How)
+	if how != "enum" && how != "" {
+		ctx.Label("how:" + how)
 	}
 	if len(toks) >= 3 || zero || (!decodable && len(script) >= 2) {
 		ctx.NonTrivial()
@@ -130,53 +156,53 @@ func check(ctx *pbt.Ctx, c Case) error {
 
 	// ---- classification oracles
 	if !knownTypes[typ] {
-		return fmt.Errorf("ScriptType(%s) = %q is not one of the declared types", short(script), typ)
+		return nil, fmt.Errorf("ScriptType(%s) = %q is not one of the declared types", short(script), typ)
 	}
 	if (typ == bscript.ScriptTypeEmpty) != (len(script) == 0) {
-		return fmt.Errorf("ScriptType(%s) = %q", short(script), typ)
+		return nil, fmt.Errorf("ScriptType(%s) = %q", short(script), typ)
 	}
 	// P2PKH exactly the 25-byte template, both directions
 	shape := ref.IsP2PKHBytes(script)
 	if isP2PKH != shape {
-		return fmt.Errorf("IsP2PKH(%s) = %v, 25-byte template match = %v", short(script), isP2PKH, shape)
+		return nil, fmt.Errorf("IsP2PKH(%s) = %v, 25-byte template match = %v", short(script), isP2PKH, shape)
 	}
 	if (typ == bscript.ScriptTypePubKeyHash) != shape {
-		return fmt.Errorf("ScriptType(%s) = %q, 25-byte P2PKH template match = %v", short(script), typ, shape)
+		return nil, fmt.Errorf("ScriptType(%s) = %q, 25-byte P2PKH template match = %v", short(script), typ, shape)
 	}
 	// data only with the OP_RETURN / OP_FALSE OP_RETURN prefix; IsData is documented as exactly the prefix test
 	prefix := ref.HasDataPrefix(script)
 	if isData != prefix {
-		return fmt.Errorf("IsData(%s) = %v, starts with 6a / 00 6a = %v", short(script), isData, prefix)
+		return nil, fmt.Errorf("IsData(%s) = %v, starts with 6a / 00 6a = %v", short(script), isData, prefix)
 	}
 	if typ == bscript.ScriptTypeNullData && !prefix {
-		return fmt.Errorf("ScriptType(%s) = nulldata without an OP_RETURN / OP_FALSE OP_RETURN prefix", short(script))
+		return nil, fmt.Errorf("ScriptType(%s) = nulldata without an OP_RETURN / OP_FALSE OP_RETURN prefix", short(script))
 	}
 	// the reported type is backed by its predicate
 	switch typ {
 	case bscript.ScriptTypePubKey:
 		if !isP2PK {
-			return fmt.Errorf("ScriptType(%s) = pubkey but IsP2PK is false", short(script))
+			return nil, fmt.Errorf("ScriptType(%s) = pubkey but IsP2PK is false", short(script))
 		}
 	case bscript.ScriptTypeMultiSig:
 		if !isMulti {
-			return fmt.Errorf("ScriptType(%s) = multisig but IsMultiSigOut is false", short(script))
+			return nil, fmt.Errorf("ScriptType(%s) = multisig but IsMultiSigOut is false", short(script))
 		}
 	case bscript.ScriptTypePubKeyHashInscription:
 		if !isInsc {
-			return fmt.Errorf("ScriptType(%s) = pubkeyhashinscription but IsP2PKHInscription is false", short(script))
+			return nil, fmt.Errorf("ScriptType(%s) = pubkeyhashinscription but IsP2PKHInscription is false", short(script))
 		}
 	}
 	// undecodable scripts are never key-bearing (the P2PKH test is defined by bytes; a
 	// 25-byte template match is always decodable, so no exception is needed)
 	if !decodable {
 		if typ == bscript.ScriptTypePubKey || typ == bscript.ScriptTypePubKeyHash || typ == bscript.ScriptTypeMultiSig || typ == bscript.ScriptTypePubKeyHashInscription {
-			return fmt.Errorf("undecodable script %s reported as %q", short(script), typ)
+			return nil, fmt.Errorf("undecodable script %s reported as %q", short(script), typ)
 		}
 		if isP2PK || isMulti || isInsc || isP2PKH {
-			return fmt.Errorf("undecodable script %s: IsP2PK=%v IsMultiSigOut=%v IsP2PKHInscription=%v IsP2PKH=%v", short(script), isP2PK, isMulti, isInsc, isP2PKH)
+			return nil, fmt.Errorf("undecodable script %s: IsP2PK=%v IsMultiSigOut=%v IsP2PKHInscription=%v IsP2PKH=%v", short(script), isP2PK, isMulti, isInsc, isP2PKH)
 		}
 		if inscErr == nil {
-			return fmt.Errorf("ParseInscription succeeded on the undecodable script %s", short(script))
+			return nil, fmt.Errorf("ParseInscription succeeded on the undecodable script %s", short(script))
 		}
 	}
 	// strict template instances report their type
@@ -187,76 +213,88 @@ func check(ctx *pbt.Ctx, c Case) error {
 	case ref.TplP2PK:
 		want = bscript.ScriptTypePubKey
 		if !isP2PK {
-			return fmt.Errorf("IsP2PK false on the P2PK template %s", short(script))
+			return nil, fmt.Errorf("IsP2PK false on the P2PK template %s", short(script))
 		}
 	case ref.TplMultisig:
 		want = bscript.ScriptTypeMultiSig
 		if !isMulti {
-			return fmt.Errorf("IsMultiSigOut false on the bare multisig template %s", short(script))
+			return nil, fmt.Errorf("IsMultiSigOut false on the bare multisig template %s", short(script))
 		}
 	case ref.TplData:
 		want = bscript.ScriptTypeNullData
 	case ref.TplInscription:
 		want = bscript.ScriptTypePubKeyHashInscription
 		if !isInsc {
-			return fmt.Errorf("IsP2PKHInscription false on the inscription template %s", short(script))
+			return nil, fmt.Errorf("IsP2PKHInscription false on the inscription template %s", short(script))
 		}
 	case ref.TplP2SH:
 		if !isP2SH {
-			return fmt.Errorf("IsP2SH false on the P2SH template %s", short(script))
+			return nil, fmt.Errorf("IsP2SH false on the P2SH template %s", short(script))
 		}
 	}
 	if want != "" && typ != want {
-		return fmt.Errorf("template %s instance %s reported as %q, want %q", tpl, short(script), typ, want)
+		return nil, fmt.Errorf("template %s instance %s reported as %q, want %q", tpl, short(script), typ, want)
 	}
 	// public key hash / addresses of the P2PKH template
 	if shape {
 		if pkhErr != nil || !bytes.Equal(pkh, script[3:23]) {
-			return fmt.Errorf("PublicKeyHash(%s) = %x, %v", short(script), pkh, pkhErr)
+			return nil, fmt.Errorf("PublicKeyHash(%s) = %x, %v", short(script), pkh, pkhErr)
 		}
 		if addrErr != nil || len(addrs) != 1 || addrs[0] == "" {
-			return fmt.Errorf("Addresses(%s) = %v, %v; one address expected", short(script), addrs, addrErr)
+			return nil, fmt.Errorf("Addresses(%s) = %v, %v; one address expected", short(script), addrs, addrErr)
 		}
 	}
 	// inscription parsing
 	if inscErr == nil {
 		if insc == nil || insc.LockingScriptPrefix == nil {
-			return fmt.Errorf("ParseInscription(%s) returned nil without error", short(script))
+			return nil, fmt.Errorf("ParseInscription(%s) returned nil without error", short(script))
 		}
 		if !isInsc {
-			return fmt.Errorf("ParseInscription(%s) succeeded although IsP2PKHInscription is false", short(script))
+			return nil, fmt.Errorf("ParseInscription(%s) succeeded although IsP2PKHInscription is false", short(script))
 		}
 	}
 	if tpl == ref.TplInscription {
 		if inscErr != nil {
-			return fmt.Errorf("ParseInscription failed on the inscription template %s: %v", short(script), inscErr)
+			return nil, fmt.Errorf("ParseInscription failed on the inscription template %s: %v", short(script), inscErr)
 		}
 		if !bytes.Equal(*insc.LockingScriptPrefix, script[:25]) || insc.ContentType != string(toks[9].Data) || !bytes.Equal(insc.Data, toks[11].Data) {
-			return fmt.Errorf("ParseInscription(%s) = {prefix %x, type %q, data %s}; template carries {%x, %q, %s}", short(script),
+			return nil, fmt.Errorf("ParseInscription(%s) = {prefix %x, type %q, data %s}; template carries {%x, %q, %s}", short(script),
 				[]byte(*insc.LockingScriptPrefix), insc.ContentType, short(insc.Data), script[:25], toks[9].Data, short(toks[11].Data))
 		}
 	}
 	// assembly rendering flags undecodable tails (as the node does), and only those
 	if asmErr == nil {
 		if flagged := strings.HasSuffix(asm, "[error]"); flagged != !decodable {
-			return fmt.Errorf("ToASM(%s) = %q; reference reader says decodable=%v", short(script), short([]byte(asm)), decodable)
+			return nil, fmt.Errorf("ToASM(%s) = %q; reference reader says decodable=%v", short(script), short([]byte(asm)), decodable)
 		}
 	}
 
-	// ---- node JSON with the script as an output
+	return &answers{typ: typ, asm: asm, asmErr: asmErr, pkh: pkh, addrs: addrs, insc: insc}, nil
+}
+
+// buildTx puts lock in output 0; in: 0 = no input, 1 = one unsigned input (nil unlocking
+// script), 2 = one input carrying unlock.
+func buildTx(in int, lock, unlock *bscript.Script) (*bt.Tx, error) {
 	tx := bt.NewTx()
-	switch c.In {
+	switch in {
 	case 1, 2:
-		in := &bt.Input{PreviousTxOutIndex: 1, SequenceNumber: 0xffffffff}
-		if err := in.PreviousTxIDAdd(bytes.Repeat([]byte{0x11}, 32)); err != nil {
-			return fmt.Errorf("harness: %v", err)
+		i := &bt.Input{PreviousTxOutIndex: 1, SequenceNumber: 0xffffffff}
+		if err := i.PreviousTxIDAdd(bytes.Repeat([]byte{0x11}, 32)); err != nil {
+			return nil, fmt.Errorf("harness: %v", err)
 		}
-		if c.In == 2 {
-			in.UnlockingScript = bscript.NewFromBytes(append([]byte(nil), script...))
+		if in == 2 {
+			i.UnlockingScript = unlock
 		}
-		tx.Inputs = append(tx.Inputs, in)
+		tx.Inputs = append(tx.Inputs, i)
 	}
-	tx.AddOutput(&bt.Output{Satoshis: 1000, LockingScript: bscript.NewFromBytes(append([]byte(nil), script...))})
+	tx.AddOutput(&bt.Output{Satoshis: 1000, LockingScript: lock})
+	return tx, nil
+}
+
+// checkNodeJSON marshals tx (built by buildTx around script) the way a node prints it and
+// compares with the direct answers.
+func checkNodeJSON(ctx *pbt.Ctx, tx *bt.Tx, script []byte, in int, a *answers) error {
+	typ, asm, asmErr := a.typ, a.asm, a.asmErr
 	jb, jerr := json.Marshal(tx.NodeJSON())
 	if jerr != nil {
 		ctx.Label("node JSON: error")
@@ -272,12 +310,12 @@ func check(ctx *pbt.Ctx, c Case) error {
 		if sp.Hex != hex.EncodeToString(script) || sp.Type != typ || (asmErr == nil && sp.Asm != asm) {
 			return fmt.Errorf("node JSON scriptPubKey {hex %q type %q asm %q} disagrees with the script %s (type %q asm %q)", sp.Hex, sp.Type, sp.Asm, short(script), typ, asm)
 		}
-		if c.In == 2 {
+		if in == 2 {
 			if len(nt.Vin) != 1 || nt.Vin[0].ScriptSig == nil || nt.Vin[0].ScriptSig.Hex != hex.EncodeToString(script) {
 				return fmt.Errorf("node JSON scriptSig disagrees with the unlocking script %s: %s", short(script), short(jb))
 			}
 		}
-		if c.In == 1 {
+		if in == 1 {
 			if len(nt.Vin) != 1 || (nt.Vin[0].ScriptSig != nil && nt.Vin[0].ScriptSig.Hex != "") {
 				return fmt.Errorf("node JSON of an unsigned input is not an empty scriptSig: %s", short(jb))
 			}
